@@ -235,6 +235,53 @@ def out_of_float_range(req):
     return hi >= 509 or lo <= -530
 
 
+def operand_edges(req):
+    """the edges of the two operands of a BOOL/SUBDIV request as ((x0, y0), (x1, y1)) pairs of Fractions, or
+    None when an operand is a reference to an earlier result"""
+    from fractions import Fraction
+    toks = req.split()
+    i = None
+    for p in ("MM", "PM", "MP", "PP"):
+        if p in toks[:8]:
+            i = toks.index(p) + 1
+    if i is None:
+        return None
+    out = []
+    try:
+        for _ in range(2):
+            if toks[i].startswith("@"):
+                return None
+            es = []
+            npoly = int(toks[i]); i += 1
+            for _ in range(npoly):
+                nr = int(toks[i]); i += 1
+                for _ in range(nr):
+                    npts = int(toks[i]); i += 1
+                    pts = [(num.dec(toks[i + 2 * j]), num.dec(toks[i + 2 * j + 1])) for j in range(npts)]
+                    i += 2 * npts
+                    es.extend(zip(pts, pts[1:]))
+            out.append(es)
+    except (IndexError, ValueError):
+        return None
+    return out
+
+
+def operands_interact(req):
+    """some edge of one operand and some edge of the other have intersecting bounding boxes: only then does
+    the sweep compute a cross product of edge vectors of the two operands (N4)"""
+    es = operand_edges(req)
+    if es is None:
+        return True
+    box = lambda e: (min(e[0][0], e[1][0]), max(e[0][0], e[1][0]), min(e[0][1], e[1][1]), max(e[0][1], e[1][1]))
+    bb = [box(e) for e in es[1]]
+    for e in es[0]:
+        a = box(e)
+        for b in bb:
+            if a[0] <= b[1] and b[0] <= a[1] and a[2] <= b[3] and b[2] <= a[3]:
+                return True
+    return False
+
+
 def classify_known(prop, f, known):
     """match a finding against known_findings.json; returns the entry or None"""
     for k in known.get("findings", []):
@@ -243,7 +290,7 @@ def classify_known(prop, f, known):
         m = k["match"]
         if m == "float-range" and f.kind == "O":
             rq = finding_reqs(f)
-            if rq and any(out_of_float_range(q) for q in rq):
+            if rq and any(out_of_float_range(q) and operands_interact(q) for q in rq):
                 return k
         if m == "rounding-on-degenerate" and f.kind == "O" and getattr(f, "k_agree", True):
             kv = parse_kv(f.detail)
@@ -505,7 +552,7 @@ def structural_pairs():
 def build_cases(prop, tier, rng):
     """returns list of (label, [Case], dbg)"""
     q = tier == "quick"
-    fams_all = ["g1", "g2", "g3", "g4", "g12", "g13", "g14", "g2", "g10", "g11", "g1", "g12", "g13", "g15", "g18", "g19", "g21"]
+    fams_all = ["g1", "g2", "g3", "g4", "g12", "g13", "g14", "g2", "g10", "g11", "g1", "g12", "g13", "g15", "g18", "g19", "g21", "g22", "g23", "g24"]
     out = []
     if prop in ("C01", "C02", "C04"):
         n = 300 if q else 7200
@@ -730,6 +777,12 @@ def run_property(prop, tier, seed, replay, build=True):
         k = fs[0].known
         print("KNOWN-FINDING: property=%s %s: %s (%d occurrence(s) in this run, e.g. case %s)" %
               (prop, kid, k["what"], len(fs), fs[0].case.cid if fs[0].case is not None else "?"))
+        if os.environ.get("VERIF_DEBUG_KNOWN"):
+            for f in fs:
+                print("   known %s: case %s: %s" % (kid, f.case.cid if f.case is not None else "?", f.detail[:260]))
+                if f.case is not None:
+                    for rq in finding_reqs(f)[:2]:
+                        print("      " + rq[:400])
     o_viol = [f for f in violations if f.kind == "O"]
     k_viol = [f for f in violations if f.kind in ("K", "H")]
     if o_viol:
